@@ -40,6 +40,19 @@ func singleConfigs() []sysSpec {
 	return out
 }
 
+// rawConfigs: the ref-bound private kinds once more, bound without wrappers (body aborts only).
+func rawConfigs() []sysSpec {
+	kinds := []string{"reflocal-raw", "incmap-raw", "hashmap-raw"}
+	var out []sysSpec
+	for i, k := range kinds {
+		out = append(out, sysSpec{NArch: 1, Res: []resSpec{{Name: "v0", Kind: k, Users: []int{0}}}})
+		for _, k2 := range kinds[i+1:] {
+			out = append(out, sysSpec{NArch: 1, Res: []resSpec{{Name: "v0", Kind: k, Users: []int{0}}, {Name: "v1", Kind: k2, Users: []int{0}}}})
+		}
+	}
+	return out
+}
+
 func menuOf(sys sysSpec, a int) []gate2.Op {
 	var m []gate2.Op
 	for _, r := range sys.Res {
@@ -197,8 +210,12 @@ func families(thorough bool) []family {
 	if thorough {
 		sTotal, mTotal, tTotal, shTotal = 4, 5, 5, 4
 	}
-	drawSingle := func(total int) func(c *explore.Ctx) caseSpec {
+	drawSingle := func(total int, cfgs ...sysSpec) func(c *explore.Ctx) caseSpec {
 		return func(c *explore.Ctx) caseSpec {
+			singles := singles
+			if len(cfgs) > 0 {
+				singles = cfgs
+			}
 			sys := singles[c.Choose(len(singles), "config")]
 			left := total
 			return caseSpec{Sys: sys, Progs: [][]gate2.Section{drawProgram(c, menuOf(sys, 0), 1, 2, 3, &left)}}
@@ -255,6 +272,8 @@ func families(thorough bool) []family {
 			Describe: fmt.Sprintf("one archetype over 1-2 of {local, indexed local, ref-bound local, IncMap of locals, HashMap of locals}; programs of 1-2 sections, <=3 operations each, <=%d in all; one failing attempt anywhere (await false before operation k | k-th resource operation refused | pre-commit refused)", sTotal)},
 		{Name: "ring-chan-shared", Draw: drawRing(ring("chan", true), mTotal, thorough),
 			Describe: fmt.Sprintf("three archetypes A->B->C->A linked by OutputChan/InputChan pairs plus one LocalShared variable used by all; per archetype 0-2 sections of 1-2 operations from {send, relay the value just read, receive, read x, write x}, <=%d operations in all; (relay only in the thorough tier); programs identical up to rotation of the ring are run once; every section-level interleaving; one aborted attempt (await false) at every position", mTotal)},
+		{Name: "single-raw", Draw: drawSingle(sTotal, rawConfigs()...),
+			Describe: fmt.Sprintf("one archetype over 1-2 of {ref-bound local, IncMap of locals, HashMap of locals} bound WITHOUT Logging/Faulty wrappers, so that the runtime sees the real resource and element types; programs as in `single`, <=%d operations; one aborted attempt (await false) at every position", sTotal)},
 		{Name: "shared-indexed", Draw: drawRing(sharedOnly(), shTotal, true),
 			Describe: fmt.Sprintf("three archetypes sharing, bound WITHOUT Logging/Faulty wrappers (the runtime sees the real resource types), a function-valued LocalShared variable tbl and an IncMap m whose elements are LocalShared variables; per archetype 0-2 sections of 1-2 operations from {read tbl[1], write tbl[1], read tbl, write tbl (a new function), read m[1], write m[1]; thorough also write tbl[2], write m[2]}, <=%d operations in all; programs identical up to rotation run once; every section-level interleaving; one aborted attempt at every position; reads of shared variables are also replayed from all logs in commit order", shTotal)},
 		{Name: "ring-tcp", Draw: drawRing(ring("tcp", false), tTotal, true),
